@@ -194,6 +194,24 @@ fn format_file(
     }
 }
 
+/// Formats a file, reporting a panic of the formatter as an error for that file.
+/// `pool.panic_count()` alone is not reliable for this: the pool decrements its active count
+/// before it records the panic, so `pool.join()` can return while the count is still zero.
+fn format_file_catching_panics(
+    path: &Path,
+    config: Config,
+    range: Option<Range>,
+    opt: &opt::Opt,
+    verify_output: OutputVerification,
+) -> Result<FormatResult> {
+    match std::panic::catch_unwind(std::panic::AssertUnwindSafe(|| {
+        format_file(path, config, range, opt, verify_output)
+    })) {
+        Ok(result) => result,
+        Err(_) => bail!("the formatter panicked while formatting {}", path.display()),
+    }
+}
+
 /// Takes in a string and returns the formatted output in a buffer
 /// Used when input has been provided to stdin
 fn format_string(
@@ -550,15 +568,20 @@ fn format(opt: opt::Opt) -> Result<i32> {
                                 );
                             }
                             tx.send(
-                                format_file(&path, config, range, &opt, verify_output).map_err(
-                                    |error| {
-                                        ErrorFileWrapper {
-                                            file: path.display().to_string(),
-                                            error,
-                                        }
-                                        .into()
-                                    },
-                                ),
+                                format_file_catching_panics(
+                                    &path,
+                                    config,
+                                    range,
+                                    &opt,
+                                    verify_output,
+                                )
+                                .map_err(|error| {
+                                    ErrorFileWrapper {
+                                        file: path.display().to_string(),
+                                        error,
+                                    }
+                                    .into()
+                                }),
                             )
                             .unwrap()
                         });
